@@ -151,6 +151,36 @@ class ChoiceHub(object):
         return ch.tmps.pop(0)
 
 
+# ------------------------------------------------- copy-on-access mappings
+from collections.abc import MutableMapping
+
+
+class PickleMap(MutableMapping):
+    """Minimal mapping with shelve's access semantics (no writeback): values are
+    pickled on assignment and unpickled - a fresh copy - on every read."""
+
+    def __init__(self):
+        self.raw = {}
+
+    def __getitem__(self, k):
+        return pickle.loads(self.raw[k])
+
+    def __setitem__(self, k, v):
+        self.raw[k] = pickle.dumps(v, pickle.HIGHEST_PROTOCOL)
+
+    def __delitem__(self, k):
+        del self.raw[k]
+
+    def __iter__(self):
+        return iter(list(self.raw))
+
+    def __len__(self):
+        return len(self.raw)
+
+    def __contains__(self, k):
+        return k in self.raw
+
+
 # ------------------------------------------------------------------- gates
 class Gates(object):
     """Every substrate command of a gated greenlet blocks here until the
